@@ -11,7 +11,7 @@ git -C /repo worktree add -q --detach "$WT" HEAD || exit 2
 cleanup() { git -C /repo worktree remove --force "$WT" >/dev/null 2>&1; rm -rf "$WT"; }
 trap cleanup EXIT
 cd "$WT" || exit 2
-export CARGO_NET_OFFLINE=true CARGO_TARGET_DIR=/tmp/scratch/target_verify
+export CARGO_NET_OFFLINE=true CARGO_TARGET_DIR=/tmp/scratch/target_verify${VERIFY_SLOT:-}
 mkdir -p tests
 cp "$SRC/demo.rs" tests/seed_demo.rs
 # 1. demo passes on the unmodified tree
